@@ -59,6 +59,7 @@ func runC11(c *an.Ctx) {
 	if !ok {
 		return
 	}
+	checkValidatorRegisteredOnStart(c, "C11.a")
 	const ps = "github.com/libp2p/go-libp2p-pubsub"
 	accept, reject, ignore := importedConst(c, "p2p", ps, "ValidationAccept"), importedConst(c, "p2p", ps, "ValidationReject"), importedConst(c, "p2p", ps, "ValidationIgnore")
 	if accept == "" || reject == "" || ignore == "" {
